@@ -1,8 +1,8 @@
 CHECKS['C08'] = dict(
     engine='E-in',
     design_ref='DESIGN.md 4 C08',
-    technique='exhaustive single-fault neighbourhood: every attribute of a full well-formed UPDATE x every corruption kind x 3 positions x 3 seeds x 2 sessions, through the real Protocol.read_message (API JSON) and UpdateHandler (Adj-RIB-In); RFC 7606 allowed-outcome oracle',
-    text='Seeds built by the reference encoder carry all 13 recognised attributes (+ MP_REACH) with IPv4 NLRI, MP_REACH IPv6 NLRI, or both. Each attribute in turn, moved first / kept / moved last, gets every corruption: length-1, length+1, zero length, declared length overrunning the block, '
+    technique='exhaustive single-fault neighbourhood: every attribute of a full well-formed UPDATE x every corruption kind x 3 positions x 5 seeds x 2 sessions, through the real Protocol.read_message (API JSON) and UpdateHandler (Adj-RIB-In); RFC 7606 allowed-outcome oracle',
+    text='Seeds built by the reference encoder carry all 13 recognised attributes (+ MP_REACH) with IPv4 NLRI, MP_REACH IPv6 NLRI, both, labeled routes in MP_REACH, or IPv4 NLRI next to VPN routes in MP_REACH. Each attribute in turn, moved first / kept / moved last, gets every corruption: length-1, length+1, zero length, declared length overrunning the block, '
          'swallowing the next attribute, optional or transitive flag flipped, 30 RFC-named invalid values, duplicate, extended-length flag lie (about 2400 malformed UPDATEs, complete for this neighbourhood). The UPDATE is read by the real Protocol.read_message on an in-memory socket; '
          'allowed outcomes: nothing announced (withdrawn / dropped), session reset with 3/x, or - only for ATOMIC_AGGREGATE, AGGREGATOR, AS4_AGGREGATOR - announced with exactly that attribute absent and every other value as sent.',
     note='Trusted: reference encoder; RFC 7606 class table in the check. Outside: two simultaneous corruptions, attributes not in the seed (BGP-LS, PMSI, ...: their decoders are exercised by C03).',
